@@ -2,7 +2,8 @@
 
 EAX (Bellare-Rogaway-Wagner, Fig. 3):  N' = OMAC^0_K(N), H' = OMAC^1_K(H), C = CTR^{N'}_K(M), C' = OMAC^2_K(C),
 Tag = N' xor H' xor C' truncated to tau;  OMAC^t_K(X) = OMAC_K([t]_n || X).
-The three CMAC objects _omac[0..2] carry the abstract messages M_t = [t]_n || data_t (M of cmac.py); update() appends to M_1
+The three CMAC objects _omac[0..2] carry the abstract messages M_t (M of cmac.py); __init__ makes them [0]_n || N, [1]_n, [2]_n
+(so by induction over any call history M_t = [t]_n || data_t); update() appends to M_1
 (through `_signer`, which IS _omac[1]), encrypt()/decrypt() append the ciphertext to M_2 (C09: whatever the segmentation, and
 from the output buffer when output= is used), the CTR object starts at N'.  digest()/verify() give
 eax_tag_streams(K, M_0, M_1, M_2) = eax_tag(K, N, H, C) (C01).  Instantiated per block size (8, 16)."""
@@ -42,7 +43,6 @@ def tables(bs):
     for i in range(3):
         inv['omac%d' % i] = 'valid(%s)' % O(i)
         inv['cfg%d' % i] = 'conj(%s.digest_size == %s, not %s._update_after_digest)' % (O(i), BS, O(i))
-        inv['prefix%d' % i] = '%s.startswith(bytes(%d) + bytes([%d]))' % (Mi(i), bs - 1, i)
     inv.update({
         'one_key': 'conj(%s)' % ', '.join('%s._ecb.g_fid == %s, %s._ecb.g_key == %s' % (O(i), FID, O(i), KEY) for i in (1, 2)),
         'mac_len': 'conj(2 <= self._mac_len, self._mac_len <= %s)' % BS,
@@ -96,9 +96,9 @@ def registry(bs=16, state=None, buf='bytes|memoryview', out='none|bytearray'):
     # ------------------------------------------------------------------ update
     ok = '"update" in self._next'
     reg.add(Contract(EM + '.update', params={'assoc_data': buf}, raises={'TypeError': ('iff', 'not (%s)' % ok)}, returns='self',
-                     requires=need('omac1', 'cfg1', 'prefix1', 'open', 'dir_enc', 'dir_dec'), options={'assume_valid': False},
+                     requires=need('omac1', 'cfg1', 'open', 'dir_enc', 'dir_dec'), options={'assume_valid': False},
                      ensures=ens({'stream': '%s == old(%s) + bytes(assoc_data)' % (Mi(1), Mi(1)), 'next': next_is(Mth, after(KEY_, 'update')),
-                                  'self': 'result is self'}, keep=['omac1', 'prefix1', 'open', 'dir_enc', 'dir_dec']),
+                                  'self': 'result is self'}, keep=['omac1', 'open', 'dir_enc', 'dir_dec']),
                      lemmas={'exit': {'stream': '%s == old(%s) + bytes(assoc_data)' % (Mi(1), Mi(1)),
                                       'len': 'len(%s) == old(len(%s)) + len(assoc_data)' % (Mi(1), Mi(1))}},
                      sets={'self._next': repr(tuple(after(KEY_, 'update')))},
@@ -115,13 +115,13 @@ def registry(bs=16, state=None, buf='bytes|memoryview', out='none|bytearray'):
         val = 'spec.aead1.xor(bytes(%s), %s)' % (arg, ks(arg))
         ctv = '(result if output is None else bytes(output))' if meth == 'encrypt' else 'bytes(ciphertext)'
         nat.by_output(reg, Contract('%s.%s' % (EM, meth), params={arg: buf, 'output': out},
-                      requires=need('omac2', 'cfg2', 'prefix2', 'ctr_id', 'ctr_icb', 'ctr_pos', 'open', 'dir_enc', 'dir_dec'),
+                      requires=need('omac2', 'cfg2', 'ctr_id', 'ctr_icb', 'ctr_pos', 'open', 'dir_enc', 'dir_dec'),
                       options={'assume_valid': False},
                       raises={'TypeError': ('iff', 'not (%s)' % ok), 'ValueError': ('iff', '%s and %s' % (ok, mismatch)),
                               'OverflowError': ('iff', '%s and conj(not %s, %s)' % (ok, mismatch, over))},
                       ensures=ens({'value': '(output is None ==> result == %s) and (output is not None ==> (result is None and bytes(output) == %s))' % (val, val),
                                    'stream': '%s == old(%s) + %s' % (Mi(2), Mi(2), ctv), 'next': next_is(Mth, after(KEY_, meth))},
-                                  keep=['omac2', 'prefix2', 'ctr_pos', 'open', 'dir_enc', 'dir_dec']),
+                                  keep=['omac2', 'ctr_pos', 'open', 'dir_enc', 'dir_dec']),
                       lemmas={'exit': {'stream': '%s == old(%s) + %s' % (Mi(2), Mi(2), ctv),
                                        'len': 'len(%s) == old(len(%s)) + len(%s)' % (Mi(2), Mi(2), arg)}},
                       sets={'self._next': repr(tuple(after(KEY_, meth)))},
@@ -132,8 +132,10 @@ def registry(bs=16, state=None, buf='bytes|memoryview', out='none|bytearray'):
     lemma_contract(reg, 'spec.aead1.lemma_eax_streams%d' % bs, {'fid': 'int', 'key': 'bytes', 'n': 'bytes', 'h': 'bytes', 'c': 'bytes', 'tau': 'int'},
                    opaque=['spec.aead1.omac', 'spec.aead1.bx'])
     ZERO = 'spec.aead1.lemma_xor_zero%d' % bs
-    too_long = ('self._mac_tag is None and disj(%s)' % ', '.join('%s._data_size > spec.aead1.omac_max(%s)' % (O(i), BS) for i in (1, 2)))
-    fin_mod = ['self._mac_tag', O(1) + '._mac_tag', O(2) + '._mac_tag']
+    # CMAC refuses to finalise more than 2^48 (2^21) blocks; an OMAC object finalised by an earlier, failed attempt answers from its cache
+    too_long = ('self._mac_tag is None and disj(%s)' % ', '.join('conj(%s._mac_tag is None, %s._data_size > spec.aead1.omac_max(%s))' % (O(i), O(i), BS)
+                                                                for i in (1, 2)))
+    fin_mod = ['self._mac_tag'] + [O(i) + '._mac_tag' for i in range(3)]
     FIN_KEEP = ['omac1', 'omac2', 'open', 'dir_enc', 'dir_dec', 'fin_len', 'fin_tag']
     idem = 'old(self._mac_tag is not None) ==> self._mac_tag == old(%s)' % TAG
     reg.add(Contract(EM + '.digest', params={},
@@ -141,7 +143,7 @@ def registry(bs=16, state=None, buf='bytes|memoryview', out='none|bytearray'):
                      ensures=ens({'tag': 'result == old(%s)' % TAG, 'cached': 'self._mac_tag == result', 'idempotent': idem,
                                   'next': next_is(Mth, after(KEY_, 'digest'))}, keep=FIN_KEEP),
                      sets={'self._next': repr(tuple(after(KEY_, 'digest'))), 'self._mac_tag': 'old(%s)' % TAG}, returns='old(%s)' % TAG,
-                     instances={'exit': ['%s(spec.aead1.omac(%s, %s, %s, %s, %s))' % (ZERO, FID, KEY, Mi(0), BS, BS)]},
+                     instances={'entry': ['%s(spec.aead1.omac(%s, %s, %s, %s, %s))' % (ZERO, FID, KEY, Mi(0), BS, BS)]},
                      modifies=['self._next'] + fin_mod, unchanged_on_raise=['TypeError'], opaque=OPQ[:-1],
                      options={'on_raise_modifies': ['self._next'] + fin_mod}))
     reg.add(Contract(EM + '.verify', params={'received_mac_tag': buf.replace('bytes|memoryview', 'buffer')},
@@ -150,11 +152,116 @@ def registry(bs=16, state=None, buf='bytes|memoryview', out='none|bytearray'):
                      ensures=ens({'cached': 'self._mac_tag == old(%s)' % TAG, 'idempotent': idem, 'none': 'result is None',
                                   'next': next_is(Mth, after(KEY_, 'verify'))}, keep=FIN_KEEP),
                      sets={'self._next': repr(tuple(after(KEY_, 'verify'))), 'self._mac_tag': 'old(%s)' % TAG},
-                     instances={'exit': ['%s(spec.aead1.omac(%s, %s, %s, %s, %s))' % (ZERO, FID, KEY, Mi(0), BS, BS)]},
+                     instances={'entry': ['%s(spec.aead1.omac(%s, %s, %s, %s, %s))' % (ZERO, FID, KEY, Mi(0), BS, BS)]},
                      modifies=['self._next'] + fin_mod, unchanged_on_raise=['TypeError'], opaque=OPQ[:-1],
                      options={'on_raise_modifies': ['self._next'] + fin_mod}))
+    # ------------------------------------------------------------------ construction (C02 glue, C01 mac_len domain)
+    # (a nonce longer than CMAC's per-key message span is refused by the OMAC^0 object: "MAC is unsafe for this message")
+    bad = ('mac_len < 2 or mac_len > %s or len(nonce) == 0 or (factory.block_size in (8, 16) and %s + len(nonce) > spec.aead1.omac_max(%s))'
+           % (BS, BS, BS))
+    flds = dict(fields, _mac_tag='none', _mac_len='int')
+    flds.pop('_signer')
+    nat.ctor_at_call_sites(reg, Contract(
+        EM + '.__init__', params={'factory': 'obj:' + nat.FACTORY, 'key': 'bytes', 'nonce': buf.replace('bytes|memoryview', 'buffer'), 'mac_len': 'int',
+                                  'cipher_params': 'dict()'},
+        raises={'ValueError': ('iff', bad), 'TypeError': ('iff', 'not (%s) and factory.block_size not in (8, 16)' % bad)},
+        ensures=ens({'nonce_attr': 'self.nonce == bytes(nonce)', 'mac_len_attr': 'self._mac_len == mac_len',
+                     'cipher': 'conj(%s == factory.g_fid, %s == bytes(key))' % (FID, KEY),
+                     'streams': 'conj(%s == bytes(%d) + bytes([1]), %s == bytes(%d) + bytes([2]))' % (Mi(1), bs - 1, Mi(2), bs - 1),
+                     'signer': 'self._signer is self._omac[1]', 'no_tag': 'self._mac_tag is None',
+                     'fresh': 'conj(self._cipher.g_pos == 0, self._cipher.g_dir == 0)', 'next': next_is(Mth, t['init'])}),
+        sets={'self._next': repr(tuple(t['init']))},
+        lemmas={'exit': {'nonce_attr': 'self.nonce == bytes(nonce)',
+                         'm0': '%s == bytes(%d) + bytes([0]) + bytes(nonce)' % (Mi(0), bs - 1),
+                         'm2': '%s == bytes(%d) + bytes([2])' % (Mi(2), bs - 1), 'len2': 'len(%s) == %s' % (Mi(2), BS)}},
+        modifies=['self.*'], options={'assume_valid': False}, opaque=OPQ), flds)
+    return reg
+
+
+def _st(name):
+    for k, v in STATE_NAMES.items():
+        if v == name:
+            return k
+    raise KeyError(name)
+
+
+PERMITTED = {'update': ['init'], 'encrypt': ['init', 'encrypting'], 'decrypt': ['init', 'decrypting'],
+             'digest': ['init', 'encrypting', 'digested'], 'verify': ['init', 'decrypting', 'verified']}
+
+
+def _reg_with(target, params, *args):
+    reg = registry(*args)
+    c = reg.contracts[target]
+    c.params = dict(c.params, **params)
     return reg
 
 
 def units(prop, tier):
-    return []
+    """the three OMAC objects make every EAX unit expensive to explore (1-2 min of CPU): the quick tier takes a covering
+    selection for block size 16 (+ one 8), the thorough tier every method x state x block size x buffer type"""
+    from vf.pyunit import pyvc_unit
+    import functools
+    out = []
+    quick = tier == 'quick'
+    m = lambda x: EM + '.' + x        # noqa
+    ARG = {'update': 'assoc_data', 'encrypt': 'plaintext', 'decrypt': 'ciphertext', 'verify': 'received_mac_tag'}
+
+    def u(meth, state, bs=16, b='bytes', tag=''):
+        params = {ARG[meth]: b} if meth in ARG else {}
+        uid = 'eax.%s%s%s@bs%d/%s' % (meth, ('[%s]' % b) if meth in ARG else '', tag, bs, state)
+        out.append(pyvc_unit(prop, uid, functools.partial(_reg_with, m(meth), params, bs, _st(state)), [m(meth)]))
+
+    def init(bs, b):
+        out.append(pyvc_unit(prop, 'eax.__init__[nonce:%s]@bs%d' % (b, bs), functools.partial(_reg_with, m('__init__'), {'nonce': b}, bs), [m('__init__')]))
+    bufs = ['bytes', 'memoryview']
+    if prop == 'C09':
+        if quick:
+            u('update', 'init'); u('encrypt', 'init'); u('decrypt', 'decrypting', 8, 'memoryview')
+        else:
+            for bs in (16, 8):
+                for b in bufs:
+                    for meth in ('update', 'encrypt', 'decrypt'):
+                        for s in PERMITTED[meth]:
+                            u(meth, s, bs, b)
+    elif prop == 'C10':
+        if quick:
+            for meth, s in (('update', 'init'), ('encrypt', 'init'), ('encrypt', 'encrypting'), ('decrypt', 'decrypting'), ('digest', 'init'),
+                            ('digest', 'digested'), ('verify', 'verified')):
+                u(meth, s)
+            for meth, s in (('update', 'encrypting'), ('encrypt', 'digested'), ('decrypt', 'encrypting'), ('digest', 'decrypting'), ('verify', 'encrypting'),
+                            ('update', 'verified')):
+                u(meth, s, tag='[forbidden]')
+        else:
+            for bs in (16, 8):
+                for meth in PERMITTED:
+                    for s in STATE_NAMES.values():
+                        u(meth, s, bs, tag='' if s in PERMITTED[meth] else '[forbidden]')
+    elif prop == 'C01':
+        out.append(pyvc_unit(prop, 'eax.lemmas', functools.partial(registry, 16), ['spec.aead1.lemma_eax_streams16']))
+        out.append(pyvc_unit(prop, 'eax.lemmas8', functools.partial(registry, 8), ['spec.aead1.lemma_eax_streams8']))
+        if quick:
+            u('digest', 'encrypting'); u('verify', 'decrypting'); u('verify', 'verified', 8, 'bytearray'); init(16, 'bytes')
+        else:
+            for bs in (16, 8):
+                for s in PERMITTED['digest']:
+                    u('digest', s, bs)
+                for s in PERMITTED['verify']:
+                    for b in ('bytes', 'bytearray', 'memoryview'):
+                        u('verify', s, bs, b)
+                for b in ('bytes', 'bytearray', 'memoryview'):
+                    init(bs, b)
+    elif prop == 'C02':
+        init(16, 'bytes' if quick else 'bytearray')
+        init(8, 'memoryview')
+        init(12, 'bytes')
+        u('encrypt', 'encrypting'); u('decrypt', 'init', 8)
+    return out
+
+
+# NOT PROVED: _create_eax_cipher (kwargs glue): left out for time; EaxMode.__init__ carries the parameter domain (mac_len 2..block
+#   size, non-empty nonce) and the derived state (three OMAC prefixes, N' as initial counter block).
+# NOT PROVED: encrypt_and_digest / decrypt_and_verify / hexdigest / hexverify of EaxMode (compositions of the proved methods;
+#   hex forms use binascii / string formatting outside the subset).
+# NOT PROVED: bytearray arguments to update/encrypt/decrypt data parameters: they reach CMAC.update, whose body takes
+#   memoryview(msg) (engine: no memoryview over a mutable bytearray); the output= bytearray path IS proved (it reaches CMAC.update
+#   only through the callee contract).
